@@ -220,7 +220,14 @@ class _Index(object):
         a = self._array
         if not a.flags.c_contiguous:
             a = numpy.ascontiguousarray(a)
-        return "(" + self._tag + " x" + a.tobytes().hex() + ")"
+            return "(" + self._tag + " x" + a.tobytes().hex() + ")"
+        m = core.memo()
+        if m is None or a.size == 0:
+            return "(" + self._tag + " x" + a.tobytes().hex() + ")"
+        key, first = m.key_for(a, a.ctypes.data, a.nbytes)
+        if first:
+            return "(" + self._tag + " x" + a.tobytes().hex() + " " + key + ")"
+        return "(" + self._tag + " x " + key + ")"
 
     def _sx_empty(self, n=0):
         return "(" + self._tag + " x" + ("00" * (n * self._dtype.itemsize)) + ")"
@@ -238,8 +245,32 @@ Index64 = _mkindex("Index64", "i64", numpy.int64)
 _INDEX_BY_TAG = {"i8": Index8, "u8": IndexU8, "i32": Index32, "u32": IndexU32, "i64": Index64}
 
 
+class _Dummy(object):
+    """carrier of __array_interface__ that keeps the memory owner alive (cf. numpy's DummyArray)"""
+
+    def __init__(self, interface, base):
+        self.__array_interface__ = interface
+        self.base = base
+
+
+def span_view(key, spanoff, nbytes):
+    """uint8 view of `nbytes` bytes at offset `spanoff` inside the input span named `key` (keeps its owner alive)"""
+    ent = core.resolve_key(key)
+    if ent is None:
+        raise core.DriverProtocolError("reply refers to an unknown input buffer " + key)
+    arr, addr, total = ent
+    if spanoff < 0 or spanoff + nbytes > total:
+        raise core.DriverProtocolError("reply refers outside of input buffer " + key)
+    iface = dict(data=(addr + spanoff, not arr.flags.writeable), shape=(nbytes,), typestr="|u1", version=3)
+    return numpy.asarray(_Dummy(iface, arr))
+
+
 def rd_index(t):
     cls = _INDEX_BY_TAG[t[0]]
+    if t[1] == "@":  # (tag @ KEY byteoffset length): a view of an input buffer
+        n = int(t[4])
+        u8 = span_view(t[2], int(t[3]), n * cls._dtype.itemsize)
+        return cls._wrap(u8.view(cls._dtype))
     data = bytearray.fromhex(t[1][1:])
     return cls._wrap(numpy.frombuffer(data, dtype=cls._dtype))
 
